@@ -416,6 +416,8 @@ class Scenario:
         finally:
             tr.active = False
             tr.uninstall()
+        if tr.dead:
+            raised = "crashed"      # whatever the dying process' handlers did with the exception
         if tr.dead and tr.cur is not None and os.path.exists(tr.cur):
             with open(tr.cur, "rb") as f:
                 b = f.read()
